@@ -660,7 +660,26 @@ BIGPOOL += [list(b"a" * 60 + b"@" + b".".join([b"b" * 60] * 4) + b".com"), list(
 BIGPOOL += [list(b"x\xff@y.com"), list(b"x@y\xff.com"), list(b"\xc3@y.com"), list(b"x\x01y@y.com"), list(b"\"x\x01y\"@y.com"), list(b"\"x\x7f\"@y.org")]
 
 
+def apalache_dispatch_core(ctx):
+    """unbounded part: DispatchOk / NoNullCall is an inductive invariant of the dispatch core (all int values of rfc, any history)"""
+    src = os.path.join(vlib.VERIF, "spec", "apalache", "EavCore.tla")
+    done = 0
+    for init, length in (("Init", 0), ("IndInit", 1)):
+        od = ctx.path("apalache", "%s" % init, "x")[:-2]
+        r = subprocess.run(["timeout", "600", "apalache-mc", "check", "--init=" + init, "--inv=IndInv", "--length=%d" % length,
+                            "--out-dir=" + od, src], stdout=subprocess.PIPE, stderr=subprocess.STDOUT, text=True, cwd=ctx.scratch)
+        if "The outcome is: NoError" in r.stdout:
+            done += 1
+        else:
+            raise Infra("Apalache did not discharge %s => IndInv (model-level, not a verdict about the code):\n%s" % (init, r.stdout[-1500:]))
+    ctx.cov["apalache_inductive_invariant"] = {"spec": "spec/apalache/EavCore.tla", "invariant": "IndInv (DispatchOk, NoNullCall)",
+                                               "obligations": 2, "discharged": done,
+                                               "meaning": "for every int value of eav_t.rfc and every call history the per-mode function called "
+                                                          "is the one confirmed by the last successful eav_setup"}
+
+
 def c13(ctx):
+    apalache_dispatch_core(ctx)
     suite_object(ctx, 6, faults=False, small=False)
     suite_random_histories(ctx, 20 if ctx.quick() else 400, 200)
     return finish(ctx, "model_checking",
